@@ -496,3 +496,10 @@ def _digits(v, base):
         s += "x"
         v //= base
     return s
+
+
+def to_int(b):
+    """big-endian integer of bytes / SBytes"""
+    if isinstance(b, SBytes):
+        return b.to_int()
+    return int.from_bytes(bytes(b), "big")
